@@ -153,6 +153,14 @@ def generate(rng, tier, mode="default"):
             plan = "1" * k + "0"
             pre = ["add_last 1", "add_last 2", "copy_shallow", "add_last 3", "add_last 4"] + (["swap"] if swap else [])
             out.append([hdr(cap=4, plan=plan)] + pre + ["zip_init", "zip_next", "zip_add 8 9", "zip_next", "zip_add 6 7", "END"])
+    # (c0') the same with BOTH deques exactly full and the cursor in the back half (the branches of add_at that are
+    #       sound, so that the ideal has an opinion): a refusal of the second growth must leave both contents unchanged
+    for swap in (0, 1):
+        for nx in (3, 4):
+            for k in range(0, 7):
+                plan = "1" * k + "0"
+                pre = ["add_last 1", "add_last 2", "add_last 3", "add_last 4", "copy_shallow"] + (["swap"] if swap else [])
+                out.append([hdr(cap=4, plan=plan)] + pre + ["zip_init"] + ["zip_next"] * nx + ["zip_add 8 9", "zip_next", "zip_add 6 7", "swap", "get_last", "swap", "END"])
     # (c) boundary / malformed arguments on empty, single and full containers
     for cap, first, size in [(1, 0, 0), (1, 0, 1), (4, 3, 0), (4, 2, 1), (4, 1, 4), (8, 6, 8), (8, 7, 5)]:
         for i in [0, 1, size - 1 if size else 2**64 - 1, size, size + 1] + BIG:
